@@ -1578,19 +1578,28 @@ impl PeerConnection {
                 } else {
                     // RFC 4145 4: a=setup is valid at media and at session
                     // level.  A media-level value wins; the session-level
-                    // one covers sections that carry none.
-                    let remote_setup = desc
+                    // one covers sections that carry none.  One DTLS role
+                    // serves every section, so a section whose effective
+                    // value fixes the role (active / passive) decides before
+                    // one that leaves it open (actpass).
+                    fn setup_of(attrs: &[crate::sdp::Attribute]) -> Option<&str> {
+                        attrs
+                            .iter()
+                            .find(|attr| attr.key == "setup")
+                            .and_then(|attr| attr.value.as_deref())
+                    }
+                    let session_setup = setup_of(&desc.session.attributes);
+                    let effective: Vec<&str> = desc
                         .media_sections
                         .iter()
-                        .flat_map(|section| section.attributes.iter())
-                        .chain(desc.session.attributes.iter())
-                        .find_map(|attr| {
-                            if attr.key == "setup" {
-                                attr.value.as_deref()
-                            } else {
-                                None
-                            }
-                        });
+                        .filter_map(|section| setup_of(&section.attributes).or(session_setup))
+                        .collect();
+                    let remote_setup = effective
+                        .iter()
+                        .find(|val| **val != "actpass")
+                        .or_else(|| effective.first())
+                        .copied()
+                        .or(session_setup);
                     if let Some(val) = remote_setup {
                         let is_client = match val {
                             "active" => false,
